@@ -696,6 +696,23 @@ func vhSameTree(a, b any, path string) string {
 		}
 		return ""
 	default:
+		if a == nil {
+			// a nil slice / map and an empty one count as equal (the statement's own equivalence)
+			if y, ok := b.([]any); ok && len(y) == 0 {
+				return ""
+			}
+			if y, ok := b.(map[string]any); ok && len(y) == 0 {
+				return ""
+			}
+			if b == nil {
+				return ""
+			}
+			return vhfmt.Sprintf("%s: null vs %v", path, b)
+		}
+		switch b.(type) {
+		case []any, map[string]any:
+			return vhfmt.Sprintf("%s: %v vs %v", path, a, b)
+		}
 		if a != b {
 			return vhfmt.Sprintf("%s: %v vs %v", path, a, b)
 		}
